@@ -20,6 +20,16 @@ Theorem C01_read_back_partial : forall root b key blob len ctype meta root',
 Proof. exact put_then_get. Qed.
 Print Assumptions C01_read_back_partial.
 
+(* directory objects (keys ending in "/"): read back as the empty object with exactly the supplied user metadata, also when the
+   upload replaces an earlier upload of the same directory object (the directory and its attributes outlive a request, so the
+   old user metadata has to be removed: that was missing, see KNOWN_FINDINGS "fixed" C01) *)
+Theorem C01_directory_object_read_back : forall root b key blob len ctype meta root',
+  ends_slash key = true -> segs key <> [] ->
+  step root (PutObject b key blob len ctype meta) = (root', O_ok) ->
+  snd (step root' (GetObject b key)) = O_get None emptyMD5 "application/x-directory" (sort_attrs meta).
+Proof. exact put_dir_then_get. Qed.
+Print Assumptions C01_directory_object_read_back.
+
 (* reads do not change the tree: a GET between an upload and a later GET changes nothing *)
 Theorem C01_get_is_pure : forall root b key, fst (step root (GetObject b key)) = root.
 Proof.
@@ -35,4 +45,11 @@ Example C01_example :
   run root0 [CreateBucket "bk1"; PutObject "bk1" "a/b/c" 1 5 "text/x" [("k2", "v2"); ("k1", "v1")]; PutObject "bk1" "a/b/c" 2 7 "" [];
              GetObject "bk1" "a/b/c"; GetObject "bk1" "a/b"; GetObject "bk1" "a/b/"] =
   [O_ok; O_ok; O_ok; O_get (Some 2) "E2" "binary/octet-stream" []; O_err NoSuchKey; O_get None "" "binary/octet-stream" []].
+Proof. vm_compute. reflexivity. Qed.
+
+(* non-vacuity for directory objects: the second upload replaces the metadata of the first *)
+Example C01_example_directory_object :
+  run root0 [CreateBucket "bk1"; PutObject "bk1" "d/e/" 0 0 "" [("old", "1"); ("both", "x")]; PutObject "bk1" "d/e/" 0 0 "" [("new", "2"); ("both", "y")];
+             GetObject "bk1" "d/e/"; PutObject "bk1" "d/e/" 0 0 "" []; GetObject "bk1" "d/e/"] =
+  [O_ok; O_ok; O_ok; O_get None "EMPTY" "application/x-directory" [("both", "y"); ("new", "2")]; O_ok; O_get None "EMPTY" "application/x-directory" []].
 Proof. vm_compute. reflexivity. Qed.
